@@ -30,10 +30,16 @@ func ParseFile(input string, failFast bool) (*File, error) {
 	return tree, nil
 }
 
+// maxArrayDepth bounds how deeply array literals may nest. popValue recurses
+// once per level, so without a bound a source of a few megabytes of '['
+// overflows the stack, which is fatal to the process (e.g. the language server).
+const maxArrayDepth = 1000
+
 type Walker struct {
-	tokens   []Token
-	offset   int
-	failFast bool
+	tokens     []Token
+	offset     int
+	failFast   bool
+	arrayDepth int
 
 	errors errpos.Errors
 }
@@ -313,6 +319,14 @@ func (ww *Walker) popValue() (Value, *unexpectedTokenError) {
 
 	if ww.nextType() == LBRACK {
 		opener := ww.popToken()
+
+		if ww.arrayDepth >= maxArrayDepth {
+			err := unexpectedToken(opener, AnyLiteral)
+			err.context = "(arrays are nested too deeply)"
+			return Value{}, err
+		}
+		ww.arrayDepth++
+		defer func() { ww.arrayDepth-- }()
 
 		if ww.nextType() == RBRACK {
 			ww.popToken()
